@@ -513,8 +513,8 @@ func BuildSTL(fps int, dsc byte, title string, tcp string, blocks [][]byte) []by
 	g = append(g, "850"...)
 	g = append(g, fmt.Sprintf("STL%d.01", fps)...)
 	g = append(g, dsc)
-	g = append(g, "00"...)         // CCT latin
-	g = append(g, "0F"...)         // LC
+	g = append(g, "00"...) // CCT latin
+	g = append(g, "0F"...) // LC
 	g = append(g, padField(title, 32)...)
 	g = append(g, padField("episode", 32)...)
 	g = append(g, padField("", 32)...)
